@@ -457,7 +457,7 @@ pub fn run(run: Run) -> ! {
     cov.insert("programs_compiled".into(), json!(compiled + rejected));
     cov.insert("evaluations".into(), json!(a_sentences + evals));
     cov.insert("distinct_nontrivial".into(), json!(acc.distinct_programs.len()));
-    cov.insert("rule".into(), json!("Layer A (in-process, real macro sources included textually): F1 = every subset of {duration, delay, repeat, reverse, easing} x 0..3 keyframes x EVERY order of the arguments with keyframes interleaved, literal forms rotated; F2 = canonical order x ALL combinations of literal forms (13 durations incl. 1_500ms, 2e3ms, `for`, a 17-digit literal just past the midpoint of two f32 values (seconds literals must arrive as exactly the nearest f32), and the zero lengths 0s / 0.0ms (metadata only); 5 delays incl. the negative after -0.5s / after -250ms; 1x/3x/infinite/16_777_217x (not representable in f32)/4294967295x; reverse; 3 easing paths) x keyframe lists over 9 positions (from,to,0%,10%,25%,40%,100%,12.5%,33.3%) x 5 bodies (one with its fields not in alphabetical order: setters are called in the order written); F3 = all merged lists of 1..3 members from a 12-sentence pool; F4 = long sentences of 31, 32, 33, 41, 64 and 65 keyframes; each expansion is parsed back into a builder program and compared with the documented reading (numbers within 1 ulp of the exact decimal, structure equal, keyframes and members in source order); 16 ill-formed sentences must be rejected. Layer B: a covering subset compiled with the real proc macro and run against builder twins (values on a time grid, delay/cycle within 1 ulp, duration within 2 ulp, repeat equal); ill-formed sentences compiled one per cargo invocation must fail. non-trivial = distinct expansions (hash of token stream, capped)"));
+    cov.insert("rule".into(), json!("Layer A (in-process, real macro sources included textually): F1 = every subset of {duration, delay, repeat, reverse, easing} x 0..3 keyframes x EVERY order of the arguments with keyframes interleaved, literal forms rotated; F2 = canonical order x ALL combinations of literal forms (13 durations incl. 1_500ms, 2e3ms, `for`, a 17-digit literal just past the midpoint of two f32 values (seconds literals must arrive as exactly the nearest f32), and the zero lengths 0s / 0.0ms (metadata only); 5 delays incl. the negative after -0.5s / after -250ms; 1x/3x/infinite/16_777_217x (not representable in f32)/4294967295x; reverse; 3 easing paths) x keyframe lists over 9 positions (from,to,0%,10%,25%,40%,100%,12.5%,33.3%) x 5 bodies (one with its fields not in alphabetical order: setters are called in the order written); F3 = all merged lists of 1..3 members from a 12-sentence pool; F4 = long sentences of 31, 32, 33, 41, 64 and 65 keyframes; each expansion is parsed back into a builder program and compared with the documented reading (numbers within 1 ulp of the exact decimal, structure equal, keyframes and members in source order); 21 ill-formed sentences (five of them members of a bracketed list) must be rejected. Layer B: a covering subset compiled with the real proc macro and run against builder twins (values on a time grid, delay/cycle within 1 ulp, duration within 2 ulp, repeat equal); ill-formed sentences compiled one per cargo invocation must fail. non-trivial = distinct expansions (hash of token stream, capped)"));
     cov.insert("exhaustive".into(), json!(true));
     cov.insert("compiled_timeline_evaluations".into(), json!(evals));
     cov.insert("ill_formed_rejected_in_process".into(), json!(ill));
